@@ -61,6 +61,26 @@ def fn_qual(lines, line):
     return ty, fn
 
 
+def fn_changed(lines, regions, line):
+    """does the function enclosing `line` contain tokens that differ from the pinned extraction?"""
+    fn, fl = vrun.enclosing_fn(lines, line)
+    if not fl:
+        return False
+    ind = len(lines[fl - 1]) - len(lines[fl - 1].lstrip())
+    end = fl
+    while end < len(lines):
+        l = lines[end]
+        m = vrun.FN_HDR.match(l)
+        if m and (len(l) - len(l.lstrip())) <= ind:
+            break
+        end += 1
+    for ln in range(fl, end + 1):
+        kind, name, tags, local = gen.locate(regions, ln)
+        if 'new' in tags or 'del' in tags:
+            return True
+    return False
+
+
 def selected(select, module, ty, fn):
     name = ((ty + '::') if ty else '') + (fn or '')
     for mrx, frx in select:
@@ -229,17 +249,23 @@ def decide_build(pid, spec, b, tier, oc, seed):
         if k == 'rlimit':
             oc.undecided.append('%s: resource limit in %s::%s' % (bname, module, e['qual']))
             continue
-        if kinds and k not in kinds and not (k == 'assertion' and 'assertion' in kinds):
-            # still an unverified function of this property's set: not this property's kind of failure
+        hint = k in ('assertion', 'recommends') and 'code' not in e['site_tags']
+        if kinds and k not in kinds and not hint:
+            # a failure kind that belongs to another property (e.g. arithmetic -> C14): not this property's business
             oc.notes.append('ignored for %s (kind %s): %s::%s' % (pid, k, module, e['qual']))
             continue
-        if spec.get('mem_only') and not ((k == 'precondition' and MEM_CLAUSE.search(e['clause_text'])) or
-                                         (k in ('postcondition', 'invariant') and INV_CLAUSE.search(e['clause_text']))):
+        if spec.get('mem_only') and not hint and not ((k == 'precondition' and MEM_CLAUSE.search(e['clause_text'])) or
+                                                      (k in ('postcondition', 'invariant') and INV_CLAUSE.search(e['clause_text']))):
             continue
         if spec.get('non_mem') and k == 'precondition' and MEM_CLAUSE.search(e['clause_text']):
             continue
         code_level = k in ('postcondition', 'precondition', 'arithmetic', 'bounds', 'trait-contract', 'invariant', 'decreases') \
             or (k == 'assertion' and 'code' in e['site_tags']) or (k == 'recommends' and 'code' in e['site_tags'])
+        if not code_level and fn_changed(lines, regions, e['site_line']):
+            # a proof step that verified on the pinned tree fails after the code of THIS function changed: the
+            # verifier assumes a failed assertion afterwards, so the postcondition it supports is not re-checked
+            code_level = True
+            e['message'] += ' (proof step of a function whose code changed)'
         key = err_key(e)
         hk = hashlib.sha1(key.encode()).hexdigest()[:10]
         kf = [x for x in known if x[0] == pid and x[1] == hk]
